@@ -2,6 +2,7 @@ package eng
 
 import (
 	"go/token"
+	"go/types"
 
 	"golang.org/x/tools/go/ssa"
 )
@@ -149,4 +150,96 @@ func SizeSinks(t map[ssa.Value]bool, paramSinks map[*ssa.Function]map[int]bool) 
 		}
 	}
 	return out
+}
+
+// IndexSink is an index or slice expression whose position is a tainted (decoded) integer.
+type IndexSink struct {
+	Instr ssa.Instruction
+	X     ssa.Value // the indexed array / slice / string
+	Idx   ssa.Value
+}
+
+// IndexSinks lists the index expressions of fn whose index is in t.
+func IndexSinks(fn *ssa.Function, t map[ssa.Value]bool) []IndexSink {
+	var out []IndexSink
+	for _, b := range fn.Blocks {
+		for _, in := range b.Instrs {
+			switch x := in.(type) {
+			case *ssa.IndexAddr:
+				if t[x.Index] {
+					out = append(out, IndexSink{x, x.X, x.Index})
+				}
+			case *ssa.Index:
+				if t[x.Index] {
+					out = append(out, IndexSink{x, x.X, x.Index})
+				}
+			case *ssa.Slice:
+				if x.Low != nil && t[x.Low] {
+					out = append(out, IndexSink{x, x.X, x.Low})
+				}
+				if x.High != nil && t[x.High] {
+					out = append(out, IndexSink{x, x.X, x.High})
+				}
+			}
+		}
+	}
+	return out
+}
+
+// boundLen: the number of elements of x when it is statically known (array, pointer to array), else -1.
+func boundLen(x ssa.Value) int64 {
+	t := x.Type().Underlying()
+	if p, ok := t.(*types.Pointer); ok {
+		t = p.Elem().Underlying()
+	}
+	if a, ok := t.(*types.Array); ok {
+		return a.Len()
+	}
+	return -1
+}
+
+// InBoundsEdges returns the CFG edges on which 0 <= idx < len(x) is known for an unsigned or non-negative idx:
+// the true edge of idx < len(x) (or of idx < N, idx <= N-1 for a constant N not above a statically known length) and
+// the false edge of the negations; tests on values in `same` (idx and its pure conversions) are accepted.
+func InBoundsEdges(fn *ssa.Function, x ssa.Value, same map[ssa.Value]bool) EdgeSet {
+	out := EdgeSet{}
+	n := boundLen(x)
+	for _, b := range fn.Blocks {
+		for edge := 0; edge < 2; edge++ {
+			c, ok := EdgeCmp(b, edge)
+			if !ok {
+				continue
+			}
+			l, rv, op := c.X, c.Y, c.Op
+			if same[rv] && !same[l] {
+				l, rv, op = rv, l, SwapOp(op)
+			}
+			if !same[l] {
+				continue
+			}
+			okEdge := false
+			if lx, isLen := LenOf(rv); isLen && (lx == x || Equiv(lx, x)) {
+				okEdge = op == token.LSS
+			} else if k, isC := ConstInt(rv); isC && n >= 0 {
+				okEdge = (op == token.LSS && k <= n) || (op == token.LEQ && k <= n-1)
+			}
+			if okEdge {
+				out[[2]int{b.Index, edge}] = true
+			}
+		}
+	}
+	return out
+}
+
+// IndexGuarded: the sink is unreachable once the edges on which its position is known to be below the length of
+// its operand are deleted.
+func IndexGuarded(fn *ssa.Function, sk IndexSink, taint map[ssa.Value]bool) bool {
+	same := map[ssa.Value]bool{sk.Idx: true}
+	for v := range taint {
+		if StripConv(v) == StripConv(sk.Idx) {
+			same[v] = true
+		}
+	}
+	edges := InBoundsEdges(fn, sk.X, same)
+	return len(edges) > 0 && !Reachable(fn.Blocks[0], edges)[sk.Instr.Block()]
 }
